@@ -1159,16 +1159,25 @@ pub fn op_release(who: usize) -> bool {
     let Some(o) = o else { return false };
     let id = o.id;
     trace!("  caller {} returns object {}", who, id);
-    let (closed_before, surplus_before) = w(|w| {
+    let (closed_before, fits) = w(|w| {
         w.begin_op(who, OpKind::Release);
+        // on a pool that was never resized or closed an object that comes back
+        // while no more than max_size objects exist is not surplus
+        let fits = w.resizes_begun == 0 && !w.close_begun && w.handles > 0 && w.live() <= w.limit;
         w.objs[id].loc = Loc::Pool;
         w.objs[id].returning += 1;
-        (w.close_returned, false)
+        (w.close_returned, fits)
     });
-    let _ = surplus_before;
     drop(o);
     w(|w| {
         w.objs[id].returning -= 1;
+        if fits && !w.objs[id].alive && w.resizes_begun == 0 && !w.close_begun && w.handles > 0 {
+            // the pool let go of an object it had room for: what retain() / take()
+            // did before must not shrink what the pool can hold (C09); on a pool
+            // that saw neither, returned objects are what get() offers next (C08)
+            let props: &[&'static str] = if w.takes_retains > 0 { &["C09"] } else { &["C08"] };
+            w.violate(props, "returned-object-discarded", format!("object {} came back to a pool holding {} of {} objects and was discarded instead of being kept", id, w.live(), w.limit));
+        }
         // kept = still alive AND still the pool's (a concurrent retain() may
         // have handed it to its caller in the meantime)
         let alive = w.objs[id].alive && w.objs[id].loc == Loc::Pool;
